@@ -26,6 +26,8 @@ LAM_CLASSES = [
     (0.7, ["float", "np.float64", "matrix_const"]),
     (0.109375, ["float", "np.float32", "np.float16", "matrix_const", "matrix_const_f32"]),
     (2, ["float", "int", "np.int64", "matrix_const"]),
+    (float(np.float32(0.6)), ["float", "np.float32", "np.float64", "matrix_const", "matrix_const_f32"]),
+    (float(np.float16(0.3)), ["float", "np.float16", "np.float32", "matrix_const", "matrix_const_f32"]),
 ]
 BETA_CLASSES = [
     (5, ["float", "int", "np.float64", "np.float32", "np.float16", "np.int64", "np.longdouble", "vector_const", "vector_const_f32"]),
@@ -34,9 +36,13 @@ BETA_CLASSES = [
     (50, ["int", "float", "np.uint8", "vector_const"]),
 ]
 EPS_CLASSES = [
-    (0, ["float", "int", "np.float64", "np.float32", "np.int64"]),
+    (0, ["float", "int", "np.float64", "np.float32", "np.int64", "np.uint8"]),
     (0.0009765625, ["float", "np.float32", "np.float16", "np.float64", "np.longdouble"]),
+    (1, ["float", "int", "np.uint8", "np.int64", "np.float32", "np.int32"]),
+    (0.25, ["float", "np.float16", "np.float64"]),
 ]
+F32_06 = float(np.float32(0.6))      # representable in float32, but k * value is not (k = 3, 5, 7)
+F16_03 = float(np.float16(0.3))
 
 
 def plan(tier, seed):
@@ -44,7 +50,7 @@ def plan(tier, seed):
     specs = []
     for p, n in enumerate(common.split_counts(48 if q else 700, 8 if q else 16)):
         specs.append(dict(name="entry-%d" % p, mode="interp", what="entry", n=n, seed=[seed, 18, p]))
-    for p, n in enumerate(common.split_counts(16 if q else 200, 8 if q else 16)):
+    for p, n in enumerate(common.split_counts(24 if q else 240, 12 if q else 16)):
         specs.append(dict(name="e2e-%d" % p, mode="interp", what="e2e", n=n, seed=[seed, 188, p]))
     if not q:
         for p in range(2):
@@ -66,7 +72,7 @@ def run_entry(spec, res):
         kind = ["full", "rankdef", "diag", "samples", "toeplitz_var"][int(rng.integers(0, 5))]
         cd = dict(seed=int(rng.integers(0, 2 ** 31)), n=n, kind=kind, N=N, W=W, pts=int(rng.integers(2, 2 * n + 2)))
         S = wd.make_covariance(cd)
-        value, forms = LAM_CLASSES[int(rng.integers(0, len(LAM_CLASSES)))]
+        value, forms = LAM_CLASSES[(i + int(spec["seed"][2])) % len(LAM_CLASSES)]
         case = dict(what="entry", cov=cd, N=N, W=W, value=value, forms=forms)
         check_entry(res, admm, case)
         if i == 0:
@@ -77,6 +83,11 @@ def check_entry(res, admm, case):
     S = wd.make_covariance(case["cov"])
     N, W = case["N"], case["W"]
     out = {}
+    # history: an earlier call with another matrix-valued weight of the same shape must not influence this one
+    try:
+        admm.admm_optimize_theta(S.copy(), np.full((N * W, N * W), float(case["value"]) + 0.25), W, N, max_iterations=5)
+    except Exception:
+        pass
     for form in case["forms"]:
         lam = wd.make_lambda(dict(form=form, value=case["value"]), N * W)
         try:
@@ -115,14 +126,15 @@ def run_e2e(spec, res):
         base["biased"] = True
         base["limit"] = int(rng.choice([2, 3, 20]))
         which = ["lam", "beta", "eps"][(i + int(spec["seed"][2])) % 3]
+        rot = (i + int(spec["seed"][2])) // 3
         if which == "lam":
-            value, forms = LAM_CLASSES[int(rng.integers(0, len(LAM_CLASSES)))]
+            value, forms = LAM_CLASSES[rot % len(LAM_CLASSES)]
         elif which == "beta":
-            value, forms = BETA_CLASSES[int(rng.integers(0, len(BETA_CLASSES)))]
+            value, forms = BETA_CLASSES[rot % len(BETA_CLASSES)]
             if base["front"] == "joint":
                 forms = [f for f in forms if not f.startswith("vector")]
         else:
-            value, forms = EPS_CLASSES[int(rng.integers(0, len(EPS_CLASSES)))]
+            value, forms = EPS_CLASSES[rot % len(EPS_CLASSES)]
         base["beta"] = dict(form="float", value=float(BETAS_DEFAULT[i % len(BETAS_DEFAULT)]))
         base["lam"] = dict(form="float", value=0.11)
         base["eps"] = 0.0
